@@ -24,5 +24,8 @@ def run(ctx):
     for m in mismatches:
         ctx.violation("Refinement", m["op"], "divergence", "the real state machine diverges from spec/StateMachine.tla: %s" % "; ".join(m["diff"] or []),
                       replay_obj={"steps": m["steps"]})
+    # code -> spec direction: the repository's own tests run under the invariant monitor
+    import suitemon
+    cov.update(suitemon.run_suite(ctx, {"C08"}, kind="sm"))
     rc = ctx.finish("model_checking", extra_cov=cov)
     return mirrorcheck.conclude(rc, [], inconcl, refinement=True)
